@@ -124,6 +124,10 @@ func (m *Model) PullPositions(ctx context.Context, ops ...resource.ReadOption) <
 				all[change.Id] = change.NewValue.(*traits.OpenClosePosition)
 			}
 
+			if !change.SeedValue {
+				// an update: the seed is over, even if it was empty and so never flagged its last value
+				seenAll = true
+			}
 			shouldSend := seenAll || (change.LastSeedValue && !readRequest.UpdatesOnly)
 			if change.LastSeedValue {
 				seenAll = true
